@@ -1089,6 +1089,328 @@ Proof.
     cbn [bind] in Hrec. inversion Hrec; subst rs. destruct Hin as [<-|[]]. cbn [r_kind r_S r_E r_DS r_DE]. repeat split; lia.
 Qed.
 
+
+(* ------------------------------------------------------------------ A5SS / A3SS: transcript carries ... a b ... *)
+Lemma scan_bwd_nil : forall (l : list exon) ue ds i,
+  (forall x, In x l -> fst x < snd x /\ snd x <= ue) -> scan_bwd l ue ds i = [].
+Proof.
+  intros. destruct l as [|[s e] tl]; [reflexivity|]. cbn [scan_bwd].
+  pose proof (H (s, e) (or_introl eq_refl)). cbn [fst snd] in *.
+  assert ((ue <=? s) && (s <? e) && (e <=? ds) = false) as -> by lia.
+  assert ((e <=? ue) || (s >=? ds) = true) as -> by lia. reflexivity.
+Qed.
+Lemma scan_fwd_nil : forall (l : list exon) ue ds i,
+  (forall x, In x l -> fst x < snd x /\ ds <= fst x) -> scan_fwd l ue ds i = [].
+Proof.
+  intros. destruct l as [|[s e] tl]; [reflexivity|]. cbn [scan_fwd].
+  pose proof (H (s, e) (or_introl eq_refl)). cbn [fst snd] in *.
+  assert ((ue <=? s) && (s <? e) && (e <=? ds) = false) as -> by lia.
+  assert ((e <=? ue) || (s >=? ds) = true) as -> by lia. reflexivity.
+Qed.
+
+(* geometry A: the alternative boundary is the END of exon a; junction (xs, xe, b1, fe), upstream_novel *)
+(* A0: xe is a's own end: nothing *)
+Lemma ssA_own : forall (pre post : list exon) a1 a2 b1 b2 xs fe rs,
+  t_exons t = pre ++ (a1, a2) :: (b1, b2) :: post ->
+  chain gs (t_exons t) ge ->
+  junction_records g gseq txi t (mkJ xs a2 b1 fe) true false = Ok rs -> rs = [].
+Proof.
+  intros pre post a1 a2 b1 b2 xs fe rs Hex Hch Hrec.
+  rewrite Hex in Hch.
+  destruct (chain_pre _ _ _ _ _ Hch) as (Hpre & U1 & U2 & U3 & Hch2). cbn [fst snd] in *.
+  cbn [chain fst snd] in Hch2. destruct Hch2 as (E1 & E2 & E3 & Hpost).
+  pose proof (zlength_nonneg _ pre) as Hn.
+  unfold junction_records, align in Hrec. cbn [j_us j_ue j_ds j_de] in Hrec. rewrite Hex in Hrec.
+  rewrite (find_start_skip pre _ b1) in Hrec by (intros x Hx; specialize (Hpre x Hx); lia).
+  rewrite (find_end_skip pre _ a2) in Hrec by (intros x Hx; specialize (Hpre x Hx); lia).
+  cbn [find_start find_end] in Hrec.
+  revert Hrec. zb. cbn [andb]. intro Hrec.
+  replace (0 + zlength pre + 1) with (zlength pre + 1) in Hrec by lia.
+  replace (0 + zlength pre) with (zlength pre) in Hrec by lia.
+  match type of Hrec with aln_convert _ _ _ _ ?A = _ => set (a := A) in * end.
+  assert (Hint : interjacent a = Ok []).
+  { rewrite (interjacent_fwd a pre (a1, a2) ((b1, b2) :: post)); [|reflexivity|reflexivity|discriminate|unfold a; cbn [a_dsi]; lia].
+    cbn [scan_fwd a_j a j_ue j_ds]. zb. reflexivity. }
+  unfold aln_convert in Hrec. rewrite Hint in Hrec. cbn [bind a_un a_dn a negb andb app] in Hrec.
+  unfold up_arm in Hrec. cbn [nonempty a_uei a] in Hrec.
+  revert Hrec. zb. cbn [orb bind app]. intro Hrec. inversion Hrec. reflexivity.
+Qed.
+
+(* A1: xe = to lies inside a (a1 < to < a2): the tail [to, a2) of a is deleted *)
+Lemma ssA_del : forall (pre post : list exon) a1 a2 b1 b2 xs to fe rs,
+  t_exons t = pre ++ (a1, a2) :: (b1, b2) :: post ->
+  chain gs (t_exons t) ge -> a1 < to -> to < a2 ->
+  junction_records g gseq txi t (mkJ xs to b1 fe) true false = Ok rs ->
+  forall r, In r rs ->
+    r_kind r = KDel /\ r_S r = (if strand =? 1 then to - gs else ge - a2) /\
+    r_E r = (if strand =? 1 then a2 - gs else ge - to).
+Proof.
+  intros pre post a1 a2 b1 b2 xs to fe rs Hex Hch O1 O2 Hrec r Hin.
+  rewrite Hex in Hch.
+  destruct (chain_pre _ _ _ _ _ Hch) as (Hpre & U1 & U2 & U3 & Hch2). cbn [fst snd] in *.
+  cbn [chain fst snd] in Hch2. destruct Hch2 as (E1 & E2 & E3 & Hpost).
+  pose proof (chain_post _ _ _ Hpost) as Hpost'.
+  pose proof (zlength_nonneg _ pre) as Hn.
+  unfold junction_records, align in Hrec. cbn [j_us j_ue j_ds j_de] in Hrec. rewrite Hex in Hrec.
+  rewrite (find_end_none _ to) in Hrec.
+  2:{ intros x Hx. apply in_app_or in Hx. destruct Hx as [Hx|[<-|[<-|Hx]]]; cbn [snd];
+      [specialize (Hpre x Hx)|..|specialize (Hpost' x Hx)]; lia. }
+  rewrite (find_start_skip pre _ b1) in Hrec by (intros x Hx; specialize (Hpre x Hx); lia).
+  cbn [find_start] in Hrec.
+  revert Hrec. zb. cbn [andb]. intro Hrec.
+  replace (0 + zlength pre + 1) with (zlength pre + 1) in Hrec by lia.
+  match type of Hrec with aln_convert _ _ _ _ ?A = _ => set (a := A) in * end.
+  assert (Hex' : a_ex a = (pre ++ [(a1, a2)]) ++ (b1, b2) :: post)
+    by (unfold a; cbn [a_ex]; rewrite <- app_assoc; reflexivity).
+  assert (Hdsi : a_dsi a = zlength (pre ++ [(a1, a2)]))
+    by (unfold a; cbn [a_dsi]; rewrite zlength_app; reflexivity).
+  assert (Hint : interjacent a = Ok []).
+  { rewrite (interjacent_bwd a _ _ Hex' eq_refl Hdsi) by (destruct pre; discriminate).
+    rewrite rev_app_distr. cbn [rev app scan_bwd a_j a j_ue j_ds]. zb. cbn [andb orb app].
+    rewrite scan_bwd_nil; [reflexivity|].
+    intros x Hx. apply in_rev in Hx. specialize (Hpre x Hx). lia. }
+  unfold aln_convert in Hrec. rewrite Hint in Hrec. cbn [bind a_un a_dn a negb andb app] in Hrec.
+  unfold up_arm in Hrec. cbn [nonempty a_uei a] in Hrec.
+  rewrite (up_spanning_bwd a _ _ Hex' Hdsi) in Hrec.
+  rewrite rev_app_distr in Hrec. cbn [rev app first_containing_bwd a a_j j_ue] in Hrec.
+  unfold inside at 1 in Hrec. cbn [fst snd] in Hrec.
+  rewrite zlength_app in Hrec. change (zlength [(a1, a2)]) with 1 in Hrec.
+  revert Hrec. zb. cbn [orb andb]. zb. intro Hrec.
+  replace (zlength pre + 1 - 1) with (zlength pre) in Hrec by lia.
+  assert (Hgc : forall p, gs <= p -> p < ge -> g2gene g p = Ok (gcoord strand gs ge p))
+    by (intros; apply g2gene_ok; assumption).
+  assert (Hseq : forall i, 0 <= i -> i < ge - gs -> exists c, seq_at gseq i = Ok c)
+    by (intros; apply (seq_at_ok g chrom Hgs Hge); assumption).
+  unfold create_upstream_deletion, one in Hrec. cbn [nonempty bind a_ex a a_j j_ue] in Hrec.
+  unfold inside in Hrec. cbn [fst snd] in Hrec. revert Hrec. zb. cbn [andb]. intro Hrec.
+  rewrite exon_at_exact in Hrec. cbn [bind fst snd] in Hrec.
+  revert Hrec. zb. intro Hrec. cbn [bind] in Hrec.
+  rewrite !Hgc in Hrec by lia. cbn [bind] in Hrec.
+  unfold finish_del in Hrec. fold strand in Hrec. unfold gcoord in Hrec.
+  destruct Hstrand as [S|S].
+  - assert (Sb : strand =? 1 = true) by lia. assert (Sc : strand =? -1 = false) by lia. rewrite Sb, Sc in *.
+    destruct (Hseq (to - gs)) as [c Hc]; [lia|lia|]. rewrite Hc in Hrec. cbn [bind] in Hrec.
+    unfold mkloc in Hrec. assert (a2 - 1 - gs + 1 <? to - gs = false) as E by lia. rewrite E in Hrec.
+    cbn [bind] in Hrec. inversion Hrec; subst rs. destruct Hin as [<-|[]]. cbn [r_kind r_S r_E]. repeat split; lia.
+  - assert (Sb : strand =? 1 = false) by lia. assert (Sc : strand =? -1 = true) by lia. rewrite Sb, Sc in *.
+    destruct (Hseq (ge - 1 - (a2 - 1))) as [c Hc]; [lia|lia|]. rewrite Hc in Hrec. cbn [bind] in Hrec.
+    unfold mkloc in Hrec. assert (ge - 1 - to + 1 <? ge - 1 - (a2 - 1) = false) as E by lia. rewrite E in Hrec.
+    cbn [bind] in Hrec. inversion Hrec; subst rs. destruct Hin as [<-|[]]. cbn [r_kind r_S r_E]. repeat split; lia.
+Qed.
+
+
+(* A2: xe = to lies in the intron behind a (a2 < to < b1): [a2, to) is inserted after a *)
+Lemma ssA_ins : forall (pre post : list exon) a1 a2 b1 b2 xs to fe rs,
+  t_exons t = pre ++ (a1, a2) :: (b1, b2) :: post ->
+  chain gs (t_exons t) ge -> a2 < to -> to < b1 -> xs <= a2 ->
+  junction_records g gseq txi t (mkJ xs to b1 fe) true false = Ok rs ->
+  forall r, In r rs ->
+    r_kind r = KIns /\
+    r_start r = (if strand =? 1 then a2 - 1 - gs else ge - 1 - b1) /\
+    r_DS r = (if strand =? 1 then a2 - gs else ge - to) /\
+    r_DE r = (if strand =? 1 then to - gs else ge - a2).
+Proof.
+  intros pre post a1 a2 b1 b2 xs to fe rs Hex Hch O1 O2 O3 Hrec r Hin.
+  rewrite Hex in Hch.
+  destruct (chain_pre _ _ _ _ _ Hch) as (Hpre & U1 & U2 & U3 & Hch2). cbn [fst snd] in *.
+  cbn [chain fst snd] in Hch2. destruct Hch2 as (E1 & E2 & E3 & Hpost).
+  pose proof (chain_post _ _ _ Hpost) as Hpost'.
+  pose proof (zlength_nonneg _ pre) as Hn.
+  unfold junction_records, align in Hrec. cbn [j_us j_ue j_ds j_de] in Hrec. rewrite Hex in Hrec.
+  rewrite (find_end_none _ to) in Hrec.
+  2:{ intros x Hx. apply in_app_or in Hx. destruct Hx as [Hx|[<-|[<-|Hx]]]; cbn [snd];
+      [specialize (Hpre x Hx)|..|specialize (Hpost' x Hx)]; lia. }
+  rewrite (find_start_skip pre _ b1) in Hrec by (intros x Hx; specialize (Hpre x Hx); lia).
+  cbn [find_start] in Hrec.
+  revert Hrec. zb. cbn [andb]. intro Hrec.
+  replace (0 + zlength pre + 1) with (zlength pre + 1) in Hrec by lia.
+  match type of Hrec with aln_convert _ _ _ _ ?A = _ => set (a := A) in * end.
+  assert (Hex' : a_ex a = (pre ++ [(a1, a2)]) ++ (b1, b2) :: post)
+    by (unfold a; cbn [a_ex]; rewrite <- app_assoc; reflexivity).
+  assert (Hdsi : a_dsi a = zlength (pre ++ [(a1, a2)]))
+    by (unfold a; cbn [a_dsi]; rewrite zlength_app; reflexivity).
+  assert (Hint : interjacent a = Ok []).
+  { rewrite (interjacent_bwd a _ _ Hex' eq_refl Hdsi) by (destruct pre; discriminate).
+    rewrite rev_app_distr. cbn [rev app scan_bwd a_j a j_ue j_ds]. zb. reflexivity. }
+  unfold aln_convert in Hrec. rewrite Hint in Hrec. cbn [bind a_un a_dn a negb andb app] in Hrec.
+  unfold up_arm in Hrec. cbn [nonempty a_uei a] in Hrec.
+  rewrite (up_spanning_bwd a _ _ Hex' Hdsi) in Hrec.
+  rewrite rev_app_distr in Hrec. cbn [rev app first_containing_bwd a a_j j_ue] in Hrec.
+  unfold inside at 1 in Hrec. cbn [fst snd] in Hrec.
+  rewrite first_containing_bwd_none in Hrec
+    by (intros x Hx; apply in_rev in Hx; specialize (Hpre x Hx); unfold inside; lia).
+  cbn [a_dsi] in Hrec.
+  revert Hrec. zb. cbn [orb andb]. intro Hrec.
+  assert (Hgc : forall p, gs <= p -> p < ge -> g2gene g p = Ok (gcoord strand gs ge p))
+    by (intros; apply g2gene_ok; assumption).
+  assert (Hseq : forall i, 0 <= i -> i < ge - gs -> exists c, seq_at gseq i = Ok c)
+    by (intros; apply (seq_at_ok g chrom Hgs Hge); assumption).
+  unfold create_upstream_insertion, one in Hrec. cbn [a_dsi a_ex a a_j j_us j_ue j_ds] in Hrec.
+  revert Hrec. zb. intro Hrec.
+  replace (zlength pre + 1 - 1) with (zlength pre) in Hrec by lia.
+  rewrite exon_at_exact in Hrec. cbn [bind fst snd] in Hrec.
+  replace (Z.max a2 xs) with a2 in Hrec by lia.
+  fold strand in Hrec.
+  destruct Hstrand as [S|S].
+  - assert (Sb : strand =? 1 = true) by lia. rewrite Sb in *.
+    unfold finish_ins in Hrec. rewrite !Hgc in Hrec by lia. cbn [bind] in Hrec.
+    unfold gcoord in Hrec. rewrite Sb in Hrec.
+    destruct (Hseq (a2 - 1 - gs)) as [c Hc]; [lia|lia|].
+    rewrite Hc in Hrec. cbn [bind] in Hrec.
+    inversion Hrec; subst rs. destruct Hin as [<-|[]]. cbn [r_kind r_start r_DS r_DE]. repeat split; lia.
+  - assert (Sb : strand =? 1 = false) by lia. rewrite Sb in *.
+    unfold finish_ins in Hrec. rewrite !Hgc in Hrec by lia. cbn [bind] in Hrec.
+    unfold gcoord in Hrec. rewrite Sb in Hrec.
+    destruct (Hseq (ge - 1 - b1)) as [c Hc]; [lia|lia|].
+    rewrite Hc in Hrec. cbn [bind] in Hrec.
+    inversion Hrec; subst rs. destruct Hin as [<-|[]]. cbn [r_kind r_start r_DS r_DE]. repeat split; lia.
+Qed.
+
+(* geometry B: the alternative boundary is the START of exon b; junction (us, a2, xs, xe), downstream_novel *)
+(* B0: xs is b's own start: nothing *)
+Lemma ssB_own : forall (pre post : list exon) a1 a2 b1 b2 us xe rs,
+  t_exons t = pre ++ (a1, a2) :: (b1, b2) :: post ->
+  chain gs (t_exons t) ge ->
+  junction_records g gseq txi t (mkJ us a2 b1 xe) false true = Ok rs -> rs = [].
+Proof.
+  intros pre post a1 a2 b1 b2 us xe rs Hex Hch Hrec.
+  rewrite Hex in Hch.
+  destruct (chain_pre _ _ _ _ _ Hch) as (Hpre & U1 & U2 & U3 & Hch2). cbn [fst snd] in *.
+  cbn [chain fst snd] in Hch2. destruct Hch2 as (E1 & E2 & E3 & Hpost).
+  pose proof (zlength_nonneg _ pre) as Hn.
+  unfold junction_records, align in Hrec. cbn [j_us j_ue j_ds j_de] in Hrec. rewrite Hex in Hrec.
+  rewrite (find_start_skip pre _ b1) in Hrec by (intros x Hx; specialize (Hpre x Hx); lia).
+  rewrite (find_end_skip pre _ a2) in Hrec by (intros x Hx; specialize (Hpre x Hx); lia).
+  cbn [find_start find_end] in Hrec.
+  revert Hrec. zb. cbn [andb]. intro Hrec.
+  replace (0 + zlength pre + 1) with (zlength pre + 1) in Hrec by lia.
+  replace (0 + zlength pre) with (zlength pre) in Hrec by lia.
+  match type of Hrec with aln_convert _ _ _ _ ?A = _ => set (a := A) in * end.
+  assert (Hint : interjacent a = Ok []).
+  { rewrite (interjacent_fwd a pre (a1, a2) ((b1, b2) :: post)); [|reflexivity|reflexivity|discriminate|unfold a; cbn [a_dsi]; lia].
+    cbn [scan_fwd a_j a j_ue j_ds]. zb. reflexivity. }
+  unfold aln_convert in Hrec. rewrite Hint in Hrec. cbn [bind a_un a_dn a negb andb app] in Hrec.
+  unfold down_arm in Hrec. cbn [nonempty a_dsi a] in Hrec.
+  revert Hrec. zb. cbn [orb bind app]. intro Hrec. inversion Hrec. reflexivity.
+Qed.
+
+
+(* B1: xs = to lies inside b (b1 < to < b2): the head [b1, to) of b is deleted *)
+Lemma ssB_del : forall (pre post : list exon) a1 a2 b1 b2 us to xe rs,
+  t_exons t = pre ++ (a1, a2) :: (b1, b2) :: post ->
+  chain gs (t_exons t) ge -> b1 < to -> to < b2 ->
+  junction_records g gseq txi t (mkJ us a2 to xe) false true = Ok rs ->
+  forall r, In r rs ->
+    r_kind r = KDel /\ r_S r = (if strand =? 1 then b1 - gs else ge - to) /\
+    r_E r = (if strand =? 1 then to - gs else ge - b1).
+Proof.
+  intros pre post a1 a2 b1 b2 us to xe rs Hex Hch O1 O2 Hrec r Hin.
+  rewrite Hex in Hch.
+  destruct (chain_pre _ _ _ _ _ Hch) as (Hpre & U1 & U2 & U3 & Hch2). cbn [fst snd] in *.
+  cbn [chain fst snd] in Hch2. destruct Hch2 as (E1 & E2 & E3 & Hpost).
+  pose proof (chain_post _ _ _ Hpost) as Hpost'.
+  pose proof (zlength_nonneg _ pre) as Hn.
+  unfold junction_records, align in Hrec. cbn [j_us j_ue j_ds j_de] in Hrec. rewrite Hex in Hrec.
+  rewrite (find_start_none _ to) in Hrec.
+  2:{ intros x Hx. apply in_app_or in Hx. destruct Hx as [Hx|[<-|[<-|Hx]]]; cbn [fst];
+      [specialize (Hpre x Hx)|..|specialize (Hpost' x Hx)]; lia. }
+  rewrite (find_end_skip pre _ a2) in Hrec by (intros x Hx; specialize (Hpre x Hx); lia).
+  cbn [find_end] in Hrec.
+  revert Hrec. zb. cbn [andb]. intro Hrec.
+  replace (0 + zlength pre) with (zlength pre) in Hrec by lia.
+  match type of Hrec with aln_convert _ _ _ _ ?A = _ => set (a := A) in * end.
+  assert (Hint : interjacent a = Ok []).
+  { rewrite (interjacent_fwd a pre (a1, a2) ((b1, b2) :: post)); [|reflexivity|reflexivity|discriminate|unfold a; cbn [a_dsi]; lia].
+    cbn [scan_fwd a_j a j_ue j_ds]. zb. cbn [andb orb app].
+    apply f_equal. apply scan_fwd_nil. intros x Hx. specialize (Hpost' x Hx). lia. }
+  unfold aln_convert in Hrec. rewrite Hint in Hrec. cbn [bind a_un a_dn a negb andb app] in Hrec.
+  unfold down_arm in Hrec. cbn [nonempty a_dsi a] in Hrec.
+  rewrite (down_spanning_fwd a pre (a1, a2) ((b1, b2) :: post)) in Hrec by reflexivity.
+  cbn [find_containing a a_j j_ds] in Hrec. unfold inside at 1 in Hrec. cbn [fst snd] in Hrec.
+  revert Hrec. zb. cbn [orb andb]. zb. intro Hrec.
+  assert (Hgc : forall p, gs <= p -> p < ge -> g2gene g p = Ok (gcoord strand gs ge p))
+    by (intros; apply g2gene_ok; assumption).
+  assert (Hseq : forall i, 0 <= i -> i < ge - gs -> exists c, seq_at gseq i = Ok c)
+    by (intros; apply (seq_at_ok g chrom Hgs Hge); assumption).
+  unfold create_downstream_deletion, one in Hrec. cbn [nonempty bind a_ex a a_j j_ds] in Hrec.
+  unfold inside in Hrec. cbn [fst snd] in Hrec. revert Hrec. zb. cbn [andb]. intro Hrec.
+  rewrite exon_at_exact1 in Hrec. cbn [bind fst snd] in Hrec.
+  revert Hrec. zb. intro Hrec. cbn [bind] in Hrec.
+  rewrite !Hgc in Hrec by lia. cbn [bind] in Hrec.
+  unfold finish_del in Hrec. fold strand in Hrec. unfold gcoord in Hrec.
+  destruct Hstrand as [S|S].
+  - assert (Sb : strand =? 1 = true) by lia. assert (Sc : strand =? -1 = false) by lia. rewrite Sb, Sc in *.
+    destruct (Hseq (b1 - gs)) as [c Hc]; [lia|lia|]. rewrite Hc in Hrec. cbn [bind] in Hrec.
+    unfold mkloc in Hrec. assert (to - 1 - gs + 1 <? b1 - gs = false) as E by lia. rewrite E in Hrec.
+    cbn [bind] in Hrec. inversion Hrec; subst rs. destruct Hin as [<-|[]]. cbn [r_kind r_S r_E]. repeat split; lia.
+  - assert (Sb : strand =? 1 = false) by lia. assert (Sc : strand =? -1 = true) by lia. rewrite Sb, Sc in *.
+    destruct (Hseq (ge - 1 - (to - 1))) as [c Hc]; [lia|lia|]. rewrite Hc in Hrec. cbn [bind] in Hrec.
+    unfold mkloc in Hrec. assert (ge - 1 - b1 + 1 <? ge - 1 - (to - 1) = false) as E by lia. rewrite E in Hrec.
+    cbn [bind] in Hrec. inversion Hrec; subst rs. destruct Hin as [<-|[]]. cbn [r_kind r_S r_E]. repeat split; lia.
+Qed.
+
+(* B2: xs = to lies in the intron before b (a2 < to < b1): [to, b1) is inserted before b *)
+Lemma ssB_ins : forall (pre post : list exon) a1 a2 b1 b2 us to xe rs,
+  t_exons t = pre ++ (a1, a2) :: (b1, b2) :: post ->
+  chain gs (t_exons t) ge -> a2 < to -> to < b1 -> b1 <= xe ->
+  junction_records g gseq txi t (mkJ us a2 to xe) false true = Ok rs ->
+  forall r, In r rs ->
+    r_kind r = KIns /\
+    r_start r = (if strand =? 1 then a2 - 1 - gs else ge - 1 - b1) /\
+    r_DS r = (if strand =? 1 then to - gs else ge - b1) /\
+    r_DE r = (if strand =? 1 then b1 - gs else ge - to).
+Proof.
+  intros pre post a1 a2 b1 b2 us to xe rs Hex Hch O1 O2 O3 Hrec r Hin.
+  rewrite Hex in Hch.
+  destruct (chain_pre _ _ _ _ _ Hch) as (Hpre & U1 & U2 & U3 & Hch2). cbn [fst snd] in *.
+  cbn [chain fst snd] in Hch2. destruct Hch2 as (E1 & E2 & E3 & Hpost).
+  pose proof (chain_post _ _ _ Hpost) as Hpost'.
+  pose proof (zlength_nonneg _ pre) as Hn.
+  unfold junction_records, align in Hrec. cbn [j_us j_ue j_ds j_de] in Hrec. rewrite Hex in Hrec.
+  rewrite (find_start_none _ to) in Hrec.
+  2:{ intros x Hx. apply in_app_or in Hx. destruct Hx as [Hx|[<-|[<-|Hx]]]; cbn [fst];
+      [specialize (Hpre x Hx)|..|specialize (Hpost' x Hx)]; lia. }
+  rewrite (find_end_skip pre _ a2) in Hrec by (intros x Hx; specialize (Hpre x Hx); lia).
+  cbn [find_end] in Hrec.
+  revert Hrec. zb. cbn [andb]. intro Hrec.
+  replace (0 + zlength pre) with (zlength pre) in Hrec by lia.
+  match type of Hrec with aln_convert _ _ _ _ ?A = _ => set (a := A) in * end.
+  assert (Hint : interjacent a = Ok []).
+  { rewrite (interjacent_fwd a pre (a1, a2) ((b1, b2) :: post)); [|reflexivity|reflexivity|discriminate|unfold a; cbn [a_dsi]; lia].
+    cbn [scan_fwd a_j a j_ue j_ds]. zb. reflexivity. }
+  unfold aln_convert in Hrec. rewrite Hint in Hrec. cbn [bind a_un a_dn a negb andb app] in Hrec.
+  unfold down_arm in Hrec. cbn [nonempty a_dsi a] in Hrec.
+  rewrite (down_spanning_fwd a pre (a1, a2) ((b1, b2) :: post)) in Hrec by reflexivity.
+  cbn [find_containing a a_j j_ds] in Hrec. unfold inside at 1 in Hrec. cbn [fst snd] in Hrec.
+  rewrite find_containing_none in Hrec by (intros x Hx; specialize (Hpost' x Hx); unfold inside; lia).
+  revert Hrec. zb. cbn [orb andb]. intro Hrec.
+  match type of Hrec with context [if ?c then one _ else Ok []] => destruct c end;
+    [|cbn in Hrec; inversion Hrec; subst rs; contradiction].
+  assert (Hgc : forall p, gs <= p -> p < ge -> g2gene g p = Ok (gcoord strand gs ge p))
+    by (intros; apply g2gene_ok; assumption).
+  assert (Hseq : forall i, 0 <= i -> i < ge - gs -> exists c, seq_at gseq i = Ok c)
+    by (intros; apply (seq_at_ok g chrom Hgs Hge); assumption).
+  unfold create_downstream_insertion, one in Hrec. cbn [a_uei a_usi a_ex a a_j j_ue j_ds j_de] in Hrec.
+  revert Hrec. zb. intro Hrec.
+  match type of Hrec with context [if ?c then Err EValue else _] => destruct c end; [discriminate|].
+  rewrite exon_at_exact1 in Hrec. cbn [bind fst snd] in Hrec.
+  replace (Z.min (b1 - 1) (xe - 1)) with (b1 - 1) in Hrec by lia.
+  fold strand in Hrec.
+  destruct Hstrand as [S|S].
+  - assert (Sb : strand =? 1 = true) by lia. rewrite Sb in *.
+    unfold finish_ins in Hrec. rewrite !Hgc in Hrec by lia. cbn [bind] in Hrec.
+    unfold gcoord in Hrec. rewrite Sb in Hrec.
+    destruct (Hseq (a2 - 1 - gs)) as [c Hc]; [lia|lia|].
+    rewrite Hc in Hrec. cbn [bind] in Hrec.
+    inversion Hrec; subst rs. destruct Hin as [<-|[]]. cbn [r_kind r_start r_DS r_DE]. repeat split; lia.
+  - assert (Sb : strand =? 1 = false) by lia. rewrite Sb in *.
+    unfold finish_ins in Hrec. rewrite !Hgc in Hrec by lia. cbn [bind] in Hrec.
+    unfold gcoord in Hrec. rewrite Sb in Hrec.
+    destruct (Hseq (ge - 1 - b1)) as [c Hc]; [lia|lia|].
+    rewrite Hc in Hrec. cbn [bind] in Hrec.
+    inversion Hrec; subst rs. destruct Hin as [<-|[]]. cbn [r_kind r_start r_DS r_DE]. repeat split; lia.
+Qed.
+
 End Cascade.
 
 (* ------------------------------------------------------------------ assembling: SE *)
@@ -1710,4 +2032,194 @@ Proof.
       apply chain_wchain. rewrite <- reassoc1. assumption.
     + destruct (sjc c >? min_sjc c); [|inversion F2; subst; contradiction].
       rewrite (mxe_second_su g chrom _ t _ _ _ _ _ _ _ _ _ Hex Hcht F2) in Ho. contradiction.
+Qed.
+
+(* ================================================================== assembling: A5SS / A3SS *)
+Lemma alt_ss_inv_end : forall ex from to flank alt, alt_ss ex true from to flank = Some alt ->
+  exists (pre : list exon) (a b : exon) (post : list exon),
+    ex = pre ++ a :: b :: post /\ snd a = from /\ fst b = flank /\ fst a < to /\ alt = pre ++ (fst a, to) :: b :: post.
+Proof.
+  induction ex as [|a t IH]; intros from to flank alt H; cbn [alt_ss] in H; [discriminate|].
+  destruct t as [|b t2]; [discriminate|].
+  cbn [negb andb] in H.
+  destruct ((snd a =? from) && (fst b =? flank) && (fst a <? to)) eqn:E.
+  - inversion H; subst. exists [], a, b, t2. repeat split; try lia.
+  - destruct (alt_ss (b :: t2) true from to flank) eqn:R; [|discriminate]. cbn in H. inversion H; subst.
+    destruct (IH _ _ _ _ R) as (pre & a' & b' & post & E1 & E2 & E3 & E4 & E5). subst.
+    exists (a :: pre), a', b', post. rewrite E1. repeat split; try assumption; reflexivity.
+Qed.
+
+Lemma alt_ss_inv_start : forall ex from to flank alt, alt_ss ex false from to flank = Some alt ->
+  exists (pre : list exon) (a b : exon) (post : list exon),
+    ex = pre ++ a :: b :: post /\ snd a = flank /\ fst b = from /\ to < snd b /\ alt = pre ++ a :: (to, snd b) :: post.
+Proof.
+  induction ex as [|a t IH]; intros from to flank alt H; cbn [alt_ss] in H; [discriminate|].
+  destruct t as [|b t2]; [discriminate|].
+  cbn [negb andb] in H.
+  destruct ((snd a =? flank) && (fst b =? from) && (to <? snd b)) eqn:E.
+  - inversion H; subst. exists [], a, b, t2. repeat split; try lia.
+  - destruct (alt_ss (b :: t2) false from to flank) eqn:R; [|discriminate]. cbn in H. inversion H; subst.
+    destruct (IH _ _ _ _ R) as (pre & a' & b' & post & E1 & E2 & E3 & E4 & E5). subst.
+    exists (a :: pre), a', b', post. rewrite E1. repeat split; try assumption; reflexivity.
+Qed.
+
+Lemma tx_seq_drop_empty : forall strand chrom (pre post : list exon) m,
+  tx_seq strand chrom (pre ++ (m, m) :: post) = tx_seq strand chrom (pre ++ post).
+Proof.
+  intros. unfold tx_seq.
+  assert (E : exons_seq chrom (pre ++ (m, m) :: post) = exons_seq chrom (pre ++ post)).
+  { rewrite !exons_seq_app. f_equal.
+    change (exons_seq chrom ((m, m) :: post)) with (slice chrom m m ++ exons_seq chrom post).
+    unfold slice. rewrite Z.sub_diag. reflexivity. }
+  rewrite E. reflexivity.
+Qed.
+
+Lemma tx_seq_merge2 : forall strand chrom (pre post : list exon) x m y, 0 <= x -> x <= m -> m <= y ->
+  tx_seq strand chrom (pre ++ (x, m) :: (m, y) :: post) = tx_seq strand chrom (pre ++ (x, y) :: post).
+Proof.
+  intros. unfold tx_seq.
+  assert (E : exons_seq chrom (pre ++ (x, m) :: (m, y) :: post) = exons_seq chrom (pre ++ (x, y) :: post)).
+  { rewrite !exons_seq_app. f_equal.
+    change (exons_seq chrom ((x, m) :: (m, y) :: post)) with (slice chrom x m ++ slice chrom m y ++ exons_seq chrom post).
+    change (exons_seq chrom ((x, y) :: post)) with (slice chrom x y ++ exons_seq chrom post).
+    rewrite app_assoc. f_equal. apply slice_app; lia. }
+  rewrite E. reflexivity.
+Qed.
+
+(* the four semantic steps, stated on the record shape produced by the cascade lemmas *)
+Lemma ss_del_end_denotes : forall g chrom (t : tx) (pre post : list exon) a1 a2 b to r,
+  wf_gene g chrom -> In t (g_txs g) -> t_exons t = pre ++ (a1, a2) :: b :: post -> a1 < to -> to < a2 ->
+  r_kind r = KDel -> r_S r = (if g_strand g =? 1 then to - g_start g else g_end g - a2) ->
+  r_E r = (if g_strand g =? 1 then a2 - g_start g else g_end g - to) ->
+  denotes g chrom t r (pre ++ (a1, to) :: b :: post).
+Proof.
+  intros g chrom t pre post a1 a2 b to r (Hst & Hgs & Hge & Hch) Ht Hex O1 O2 K S E.
+  pose proof (Hch t Ht) as C. rewrite Hex in C.
+  destruct (chain_pre _ _ _ _ _ C) as (_ & U1 & _). cbn [fst] in U1.
+  unfold denotes. rewrite Hex.
+  assert (R := tx_seq_drop_empty (g_strand g) chrom (pre ++ [(a1, to)]) (b :: post) a2).
+  rewrite <- !reassoc1 in R.
+  etransitivity; [|apply f_equal; exact R]. clear R.
+  apply (sem_del_inner (g_strand g) (g_start g) (g_end g) chrom pre (a1, a2) (b :: post) to a2);
+    try assumption; cbn [fst snd]; try lia.
+  apply chain_wchain. assumption.
+Qed.
+
+Lemma ss_del_start_denotes : forall g chrom (t : tx) (pre post : list exon) a b1 b2 to r,
+  wf_gene g chrom -> In t (g_txs g) -> t_exons t = pre ++ a :: (b1, b2) :: post -> b1 < to -> to < b2 ->
+  r_kind r = KDel -> r_S r = (if g_strand g =? 1 then b1 - g_start g else g_end g - to) ->
+  r_E r = (if g_strand g =? 1 then to - g_start g else g_end g - b1) ->
+  denotes g chrom t r (pre ++ a :: (to, b2) :: post).
+Proof.
+  intros g chrom t pre post a b1 b2 to r (Hst & Hgs & Hge & Hch) Ht Hex O1 O2 K S E.
+  pose proof (Hch t Ht) as C. rewrite Hex in C.
+  unfold denotes. rewrite Hex.
+  assert (R := tx_seq_drop_empty (g_strand g) chrom (pre ++ [a]) ((to, b2) :: post) b1).
+  rewrite <- !reassoc1 in R.
+  etransitivity; [|apply f_equal; exact R]. clear R.
+  eapply (denotes_cong _ _ _ _ _ _ _ ((pre ++ [a]) ++ (b1, b2) :: post) _ ((pre ++ [a]) ++ (b1, b1) :: (to, b2) :: post));
+    [apply reassoc1|apply reassoc1|].
+  apply (sem_del_inner (g_strand g) (g_start g) (g_end g) chrom (pre ++ [a]) (b1, b2) post b1 to);
+    try assumption; cbn [fst snd]; try lia.
+  apply chain_wchain. rewrite <- reassoc1. assumption.
+Qed.
+
+Lemma ss_ins_denotes : forall g chrom (t : tx) (pre post : list exon) a1 a2 b1 b2 c d r alt,
+  wf_gene g chrom -> In t (g_txs g) -> t_exons t = pre ++ (a1, a2) :: (b1, b2) :: post ->
+  a2 <= c -> c < d -> d <= b1 ->
+  tx_seq (g_strand g) chrom ((pre ++ [(a1, a2)]) ++ (c, d) :: (b1, b2) :: post) = tx_seq (g_strand g) chrom alt ->
+  r_kind r = KIns ->
+  r_start r = (if g_strand g =? 1 then a2 - 1 - g_start g else g_end g - 1 - b1) ->
+  r_DS r = (if g_strand g =? 1 then c - g_start g else g_end g - d) ->
+  r_DE r = (if g_strand g =? 1 then d - g_start g else g_end g - c) ->
+  denotes g chrom t r alt.
+Proof.
+  intros g chrom t pre post a1 a2 b1 b2 c d r alt (Hst & Hgs & Hge & Hch) Ht Hex O1 O2 O3 R K P DS DE.
+  pose proof (Hch t Ht) as C. rewrite Hex in C.
+  destruct (chain_pre _ _ _ _ _ C) as (_ & U1 & U2 & U3 & C2). cbn [chain fst snd] in C2, U1, U2, U3.
+  unfold denotes. rewrite Hex.
+  etransitivity; [|apply f_equal; exact R].
+  destruct Hst as [S1|S1]; rewrite S1 in *; cbn [Z.eqb Pos.eqb] in *.
+  - apply sem_ins_plus; try assumption; cbn [fst snd]; try lia.
+    apply chain_wchain. assumption.
+  - eapply (denotes_cong _ _ _ _ _ _ _ ((pre ++ [(a1, a2)]) ++ (b1, b2) :: post) _ _); [apply reassoc1|reflexivity|].
+    apply sem_ins_minus; try assumption; cbn [fst snd]; try lia.
+    apply chain_wchain. rewrite <- reassoc1. assumption.
+Qed.
+
+Lemma rmats_ss_reproduces : forall (five : bool) g chrom ls le ss se fs fe c id rs,
+  wf_gene g chrom ->
+  let ef := if five then g_strand g =? 1 else negb (g_strand g =? 1) in
+  (ef = true -> se < le /\ le < fs /\ ls <= se) ->
+  (ef = false -> fe < ls /\ ls < ss /\ ss <= le) ->
+  ss_convert five g (gene_seq (g_strand g) chrom (g_start g) (g_end g)) ls le ss se fs fe c = Ok (id, rs) ->
+  forall r, In r rs -> forall t alt,
+    0 <= r_tx r -> nth_error (g_txs g) (Z.to_nat (r_tx r)) = Some t ->
+    ((ef = true /\ (alt_ss (t_exons t) true le se fs = Some alt \/ alt_ss (t_exons t) true se le fs = Some alt)) \/
+     (ef = false /\ (alt_ss (t_exons t) false ls ss fe = Some alt \/ alt_ss (t_exons t) false ss ls fe = Some alt))) ->
+    denotes g chrom t r alt.
+Proof.
+  intros five g chrom ls le ss se fs fe c id rs Hwf ef OT OF Hc r Hin t alt Hr0 Hnth Halt.
+  pose proof Hwf as (Hst & Hgs & Hge & Hch).
+  unfold ss_convert in Hc. change (if five then g_strand g =? 1 else negb (g_strand g =? 1)) with ef in Hc.
+  apply bind_ok in Hc. destruct Hc as (known & _ & Hc).
+  destruct known; [inversion Hc; subst; contradiction|].
+  apply bind_ok in Hc. destruct Hc as (id' & _ & Hc).
+  apply bind_ok in Hc. destruct Hc as (rs' & Hov & Hc). inversion Hc; subst id' rs'. clear Hc.
+  destruct (over_txs_in _ _ _ _ _ _ Hov Hin) as (k & t' & out & Hk & Hf & Hout).
+  apply seq2_ok in Hf. destruct Hf as (o1 & o2 & F1 & F2 & ->).
+  assert (Htx : r_tx r = 0 + Z.of_nat k).
+  { apply in_app_or in Hout. destruct Hout as [Ho|Ho].
+    - destruct (ijc c >=? min_ijc c); [|inversion F1; subst; contradiction].
+      eapply junction_records_tx; [exact F1|exact Ho].
+    - destruct (sjc c >=? min_sjc c); [|inversion F2; subst; contradiction].
+      eapply junction_records_tx; [exact F2|exact Ho]. }
+  rewrite Htx in Hnth. replace (Z.to_nat (0 + Z.of_nat k)) with k in Hnth by lia.
+  rewrite Hk in Hnth. inversion Hnth; subst t'. clear Hnth.
+  assert (Ht : In t (g_txs g)) by (eapply nth_error_In; eassumption).
+  assert (Hcht : chain (g_start g) (t_exons t) (g_end g)) by (apply Hch; assumption).
+  destruct ef eqn:EF.
+  - (* the alternative boundary is an exon END; junctions (ls,le,fs,fe) and (ss,se,fs,fe), upstream_novel *)
+    destruct (OT eq_refl) as (T1 & T2 & T3).
+    destruct Halt as [(_ & Halt)|(X & _)]; [|discriminate].
+    cbn [negb] in F1, F2.
+    destruct Halt as [Halt|Halt]; destruct (alt_ss_inv_end _ _ _ _ _ Halt) as (pre & [a1 a2] & [b1 b2] & post & Hex & HA & HB & HT & ->);
+      cbn [fst snd] in *; subst a2 b1;
+      apply in_app_or in Hout; destruct Hout as [Ho|Ho].
+    + destruct (ijc c >=? min_ijc c); [|inversion F1; subst; contradiction].
+      assert (o1 = []) by (eapply (ssA_own g chrom); [exact Hex|exact Hcht|exact F1]). subst o1. contradiction.
+    + destruct (sjc c >=? min_sjc c); [|inversion F2; subst; contradiction].
+      assert (Sh := ssA_del g chrom Hst Hgs Hge _ t pre post a1 le fs b2 ss se fe o2 Hex Hcht HT T1 F2 r Ho).
+      destruct Sh as (K & S & E).
+      eapply ss_del_end_denotes; eauto.
+    + destruct (ijc c >=? min_ijc c); [|inversion F1; subst; contradiction].
+      assert (Sh := ssA_ins g chrom Hst Hgs Hge _ t pre post a1 se fs b2 ls le fe o1 Hex Hcht T1 T2 T3 F1 r Ho).
+      destruct Sh as (K & P & DS & DE).
+      eapply (ss_ins_denotes g chrom t pre post a1 se fs b2 se le); eauto; try lia.
+      rewrite Hex in Hcht. destruct (chain_pre _ _ _ _ _ Hcht) as (_ & U1 & U2 & _). cbn [fst snd] in U1, U2.
+      rewrite <- reassoc1. apply tx_seq_merge2; lia.
+    + destruct (sjc c >=? min_sjc c); [|inversion F2; subst; contradiction].
+      assert (o2 = []) by (eapply (ssA_own g chrom); [exact Hex|exact Hcht|exact F2]). subst o2. contradiction.
+  - (* the alternative boundary is an exon START; junctions (fs,fe,ls,le) and (fs,fe,ss,se), downstream_novel *)
+    destruct (OF eq_refl) as (T1 & T2 & T3).
+    destruct Halt as [(X & _)|(_ & Halt)]; [discriminate|].
+    cbn [negb] in F1, F2.
+    destruct Halt as [Halt|Halt]; destruct (alt_ss_inv_start _ _ _ _ _ Halt) as (pre & [a1 a2] & [b1 b2] & post & Hex & HA & HB & HT & ->);
+      cbn [fst snd] in *; subst a2 b1;
+      apply in_app_or in Hout; destruct Hout as [Ho|Ho].
+    + destruct (ijc c >=? min_ijc c); [|inversion F1; subst; contradiction].
+      assert (o1 = []) by (eapply (ssB_own g chrom); [exact Hex|exact Hcht|exact F1]). subst o1. contradiction.
+    + destruct (sjc c >=? min_sjc c); [|inversion F2; subst; contradiction].
+      assert (Sh := ssB_del g chrom Hst Hgs Hge _ t pre post a1 fe ls b2 fs ss se o2 Hex Hcht T2 HT F2 r Ho).
+      destruct Sh as (K & S & E).
+      eapply ss_del_start_denotes; eauto.
+    + destruct (ijc c >=? min_ijc c); [|inversion F1; subst; contradiction].
+      assert (Sh := ssB_ins g chrom Hst Hgs Hge _ t pre post a1 fe ss b2 fs ls le o1 Hex Hcht T1 T2 T3 F1 r Ho).
+      destruct Sh as (K & P & DS & DE).
+      eapply (ss_ins_denotes g chrom t pre post a1 fe ss b2 ls ss); eauto; try lia.
+      rewrite Hex in Hcht. destruct (chain_pre _ _ _ _ _ Hcht) as (_ & U1 & U2 & _ & C2). cbn [chain fst snd] in U1, U2, C2.
+      etransitivity; [apply (tx_seq_merge2 _ _ (pre ++ [(a1, fe)]) post ls ss b2); lia|].
+      rewrite <- reassoc1. reflexivity.
+    + destruct (sjc c >=? min_sjc c); [|inversion F2; subst; contradiction].
+      assert (o2 = []) by (eapply (ssB_own g chrom); [exact Hex|exact Hcht|exact F2]). subst o2. contradiction.
 Qed.
